@@ -1,15 +1,16 @@
 (* Run/C10.v — Sx codec around Model/Extract.v + Model/FsModel.v.
 
    out  = ( dir name size mode optional old fault )
-          old   = () | ( size mode ) | dir                     what is at the output path before the request
+          old   = () | ( size mode ) | ( size mode shape ) | dir     what is at the output path before the request
+                  shape = plain | hardlink | symlink | dir700   (hardlink / symlink: the old file has the other name links/<i>)
           fault = none | missing | corrupt_head | corrupt_mid | corrupt_tail | no_dir
    Contents are symbolic in the legs `strace` and `live`: the old file of output i is the token [79; i], its
    new content the tokens [78; i; j] (one per chunk), so a prefix or a mixture is never mistaken for a whole.
 
    leg strace : ( seed ( out ... ) )
-        ->  ( result ( canonical event ... ) ( ( path class mode ) ... ) leftovers )
+        ->  ( result ( canonical event ... ) ( ( path class mode ) ... ) leftovers ( aliases_bad rewritten_in_place ) )
    leg live   : ( seed ( out ... ) ( ( poll|hold out_index reads ) ... ) ( thread number ... ) nchunks )
-        ->  ( result torn holders_bad ( ( path class mode ) ... ) leftovers )
+        ->  ( result torn holders_bad ( ( path class mode ) ... ) leftovers ( aliases_bad rewritten_in_place ) )
         the extracted scheduler runs the given schedule (then lets every thread finish)
    leg accept : ( seed ( out ... ) ( result canonical finals leftovers ( raw event ... ) ) )
         the third component is what the harness OBSERVED (strace of the real extract_objects);
@@ -49,6 +50,9 @@ Inductive faultk := KNone | KMissing | KHead | KMid | KTail | KNoDir.
 
 Record spec := mkSpec {
   s_path : path; s_size : N; s_mode : N; s_optional : bool; s_old : oldk; s_fault : faultk;
+  s_alias : bool;      (* the previous file has another name, links/<i>: a second hard link, or the target of the
+                          symbolic link that sits at the output path (for what the model observes both are a second
+                          name of the old inode: rename replaces the NAME at the output path) *)
 }.
 
 Definition dec_spec (x : sx) : spec :=
@@ -57,13 +61,18 @@ Definition dec_spec (x : sx) : spec :=
       mkSpec (get_B d, get_B n) (get_N sz) (get_N m) (get_bool opt)
         (match old with
          | SL [a; b] => OldFile (get_N a) (get_N b)
+         | SL [a; b; _] => OldFile (get_N a) (get_N b)
          | SL _ => OldNone
          | _ => if is_sym "dir" old then OldDir else OldNone
          end)
         (if is_sym "missing" flt then KMissing else if is_sym "corrupt_head" flt then KHead
          else if is_sym "corrupt_mid" flt then KMid else if is_sym "corrupt_tail" flt then KTail
          else if is_sym "no_dir" flt then KNoDir else KNone)
-  | _ => mkSpec ([], []) 0 0 false OldNone KNone
+        (match old with
+         | SL [_; _; sh] => is_sym "hardlink" sh || is_sym "symlink" sh
+         | _ => false
+         end)
+  | _ => mkSpec ([], []) 0 0 false OldNone KNone false
   end.
 
 Fixpoint number {A} (n : N) (l : list A) : list (N * A) :=
@@ -75,7 +84,16 @@ Definition new_chunk (i j : N) : bytes := [78; i; j].
 Fixpoint count_up (n : nat) (j : N) : list N :=
   match n with O => [] | S n' => j :: count_up n' (j + 1) end.
 
-Definition fs0_of (specs : list spec) : fs :=
+Definition links_dir : bytes := bs "links".
+Definition alias_path (i : N) : path := (links_dir, [48 + i]).
+
+Definition add_link (alias p : path) (f : fs) : fs :=
+  match lookup p f with
+  | Some i => mkFs ((alias, i) :: dir f) (inodes f) (next_ino f)
+  | None => f
+  end.
+
+Definition plain_fs0_of (specs : list spec) : fs :=
   mk_fs_from
     (flat_map (fun e => let '(i, s) := e in
                  match s_old s with
@@ -83,6 +101,25 @@ Definition fs0_of (specs : list spec) : fs :=
                  | OldFile _ m => [(s_path s, (old_token i, m))]
                  | OldDir => [(s_path s, (old_token i, 0))]
                  end) (number 0 specs)) 0.
+
+Definition fs0_of (specs : list spec) : fs :=
+  fold_left (fun f e => if s_alias (snd e) then add_link (alias_path (fst e)) (s_path (snd e)) f else f)
+            (number 0 specs) (plain_fs0_of specs).
+
+(* ( other names of a previous file that no longer hold its complete bytes,
+     outputs whose new content sits in the inode the path named before ) *)
+Definition aliases (f0 f : fs) (objs : list obj) (specs : list spec) : sx :=
+  let bad := filter (fun e => s_alias (snd e) &&
+                       negb (opt_bytes_eqb (content f (alias_path (fst e))) (Some (old_token (fst e)))))
+                    (number 0 specs) in
+  let inplace := filter (fun s => match lookup (s_path s) f0, lookup (s_path s) f with
+                                  | Some i, Some j => (i =? j) && match content f (s_path s) with
+                                                                  | Some c => is_newb objs (s_path s) c
+                                                                  | None => false
+                                                                  end
+                                  | _, _ => false
+                                  end) specs in
+  SL [snat (length bad); snat (length inplace)].
 
 (* the object description of output [i]; [nchunks] writes when it decodes *)
 Definition obj_of (nchunks : nat) (e : N * spec) : obj :=
@@ -134,7 +171,8 @@ Definition finals (f0 f : fs) (objs : list obj) (specs : list spec) : sx :=
                         SN (match mode_at f (s_path s) with Some m => m | None => 0 end)]) specs).
 
 Definition leftovers (f : fs) (specs : list spec) : N :=
-  N.of_nat (length (filter (fun e => negb (existsb (fun s => path_eqb (s_path s) (fst e)) specs)) (dir f))).
+  N.of_nat (length (filter (fun e => negb (existsb (fun s => path_eqb (s_path s) (fst e)) specs)
+                                     && negb (bytes_eqb (fst (fst e)) links_dir)) (dir f))).
 
 (* ---------- leg strace ---------- *)
 
@@ -148,7 +186,8 @@ Definition run_strace (x : sx) : sx :=
       SL [ enc_result (result_of objs (snd s));
            SL (canon (trace (prog objs) (f0, init_local)) 0);
            finals f0 (fst s) objs specs;
-           SN (leftovers (fst s) specs) ]
+           SN (leftovers (fst s) specs);
+           aliases f0 (fst s) objs specs ]
   | _ => err "bad case"
   end.
 
@@ -202,7 +241,7 @@ Definition run_live (x : sx) : sx :=
                      else []) obs in
       let l0 := match snd st with t :: _ => fst t | [] => init_local end in
       SL [ enc_result (result_of objs l0); snat (length torn); snat (length hbad);
-           finals f0 (fst st) objs specs; SN (leftovers (fst st) specs) ]
+           finals f0 (fst st) objs specs; SN (leftovers (fst st) specs); aliases f0 (fst st) objs specs ]
   | _ => err "bad case"
   end.
 
